@@ -20,6 +20,7 @@ Conforms(o) ==
   /\ o.out.result = Expected(o)
   /\ (o.out.result = "launch") = o.out.launched          \* executed iff the check passed ...
   /\ (o.out.result # "launch") => ~o.out.launched_late     \* ... and not a moment later either
+  /\ ~o.out.other_launched                                 \* what runs is the file that was checked, never another one
 
 TInit == /\ i = 1 /\ bad = 0 /\ sum = <<0, 0, 0>> /\ want = <<>> /\ hashNil = FALSE /\ phase = "new" /\ launched = FALSE
 TNext ==
